@@ -33,6 +33,7 @@ class State:
         self.ls_mode = "lean"
         self.ls_tmax = 2
         self.ls_memo = {}
+        self.assume_new_trial = False
         self.dir_calls = []
         self.ls_calls = []
         self.fd_calls = []
@@ -136,12 +137,29 @@ def stub_line_search(x0, f0, g0, d, lb, ub, above_iter, max_steplength_user, is_
         raise Unsupported("line_search called with max_iter <= 0")
     evaluated = []
     if not memo["decided"]:
-        ntr = 1 if ST.ls_mode == "lean" else CTX.choose_int(1, T, "ls_trials")
+        ntr = 1 if ST.ls_mode in ("lean", "unit") else CTX.choose_int(1, T, "ls_trials")
         for j in range(ntr):
-            al = SReal(CTX.fresh("alpha"))
-            CTX.assume(z3.And(al.z() > 0, al.z() <= 1), check=False)
+            if ST.ls_mode == "unit":
+                al = SReal.of(1)
+            elif ST.ls_mode == "lean":
+                # functional in the (semantic) inputs, so that two runs fed equal states take equal steps
+                if ST.alpha_uf is None:
+                    ST.alpha_uf = {}
+                uf = ST.alpha_uf.setdefault((n, int(max_iter)), UF("alpha_n%d_" % n, 1))
+                al = uf(_flat(x0, f0, g0, d))[0]
+            else:
+                al = SReal(CTX.fresh("alpha"))
+            if al.is_symbolic:
+                CTX.assume(z3.And(al.z() > 0, al.z() <= 1), check=False)
             memo["alphas"].append(al)
     for al in memo["alphas"]:
+        if ST.assume_new_trial:
+            # relational harnesses: a trial point is a new point (cuts the wrapper's memo-hit-by-coincidence fork)
+            e = _eq_point(list((x0 + al * d).data), list(sf.x.data))
+            if e is True:
+                raise PathAbort("trial point equals the cached point")
+            if e is not False:
+                CTX.assume(z3.Not(e), check=False)
         fv, gv = sf.fun_and_grad(x0 + al * d)
         evaluated.append((al, fv))
         rec["trials"].append(al)
@@ -153,7 +171,7 @@ def stub_line_search(x0, f0, g0, d, lb, ub, above_iter, max_steplength_user, is_
             better = fv < f0
             if better is False:
                 continue
-            if ST.ls_mode == "lean":
+            if ST.ls_mode in ("lean", "unit"):
                 if bool(better):
                     choice = idx
                 break
@@ -239,6 +257,16 @@ def install(W):
             ST.run.sf = sf
         return sf
     main.prepare_scalar_function = prepare
+    real_update = main.update_lbfgs_matrices
+
+    def update(xk, gk, X, G, maxcor, mats, is_force_update, **k):
+        before = len(X)
+        last = X[-1] if before else None
+        r = real_update(xk, gk, X, G, maxcor, mats, is_force_update, **k)
+        if ST.run is not None:
+            ST.run.updates.append(bool(len(X) and X[-1] is xk))
+        return r
+    main.update_lbfgs_matrices = update
     main._symx_installed = True
     return main
 
@@ -260,19 +288,21 @@ class Problem:
         self.name = name
         xs, ls, us = [], [], []
         for i in range(n):
-            x = ctx.real("%sx%d" % (name, i))
-            ctx.assume(z3.And(x >= -R, x <= R), check=False)
-            xs.append(SReal(x))
+            x = SReal(ctx.real("%sx%d" % (name, i)))
+            ctx.assume(z3.And(_b(x >= -R), _b(x <= R)), check=False)
+            xs.append(x)
             if pattern[i][0] == "f":
-                l = ctx.real("%sl%d" % (name, i))
-                ctx.assume(z3.And(l <= x, l >= -R), check=False)
-                ls.append(SReal(l))
+                l = SReal(ctx.real("%sl%d" % (name, i)))
+                ctx.assume(z3.And(_b(l <= x), _b(l >= -R)), check=False)
+                ls.append(l)
             else:
                 ls.append(None)
             if pattern[i][1] == "f":
-                u = ctx.real("%su%d" % (name, i))
-                ctx.assume(z3.And(x <= u, u <= R), check=False)
-                us.append(SReal(u))
+                u = SReal(ctx.real("%su%d" % (name, i)))
+                ctx.assume(z3.And(_b(x <= u), _b(u <= R)), check=False)
+                us.append(u)
+                if ls[-1] is not None:
+                    ctx.assume(_b(ls[-1] <= u), check=False)
             else:
                 us.append(None)
         self.x0 = xs
@@ -318,6 +348,7 @@ class Run:
         self.ls_calls = []
         self.fd_calls = []
         self.faults = {}          # (kind, index) -> exception instance
+        self.updates = []         # per update_lbfgs_matrices call: was the new pair stored?
 
     def _fault(self, kind, idx):
         e = self.faults.get((kind, idx))
